@@ -193,35 +193,48 @@ Fixpoint handle_all (pk : packer) (sk : skel) (cfg : scfg) (l : units slavectx) 
 (* ---------------------------------------------------------------- 5. the serving loop
    handle(): units = context.slaves() (+ 0 when broadcast is enabled), single = context.single,
    framer.processIncomingPacket(data, self.execute, units, single=single) for every read. *)
+Definition unit_cfg (sk : skel) (cfg : scfg) (keys : list Z) : FrBaseA.cfg :=
+  {| c_units := unit_list sk cfg keys; c_single := Some (cf_single cfg) |}.
 Definition framer_cfg (sk : skel) (cfg : scfg) (l : units slavectx) : FrBaseA.cfg :=
-  {| c_units := unit_list sk cfg (u_keys slavectx l); c_single := Some (cf_single cfg) |}.
+  unit_cfg sk cfg (u_keys slavectx l).
 
-Record e2e_result (FS : Type) := {
-  e_units : units slavectx;          (* the datastores afterwards *)
+(* [ST] = the server state the callback works on (the hosted datastores; with the device control
+   block in EndToEndExt.v), [FS] = the framer state *)
+Record e2e_result (ST FS : Type) := {
+  e_units : ST;                      (* the server state (datastores) afterwards *)
   e_out : bytes;                     (* everything written to the socket, in order *)
   e_framer : FS;                     (* framer state (buffered bytes) afterwards *)
-  e_stop : option pyexn;             (* an exception escaped processIncomingPacket: the handler stopped *)
+  e_stop : option pyexn;             (* an exception escaped processIncomingPacket: the handler stopped / reset the frame *)
   e_fault : option pyexn             (* a branch outside the model was reached (never, in the proved domain) *)
 }.
-Arguments e_units {FS}. Arguments e_out {FS}. Arguments e_framer {FS}. Arguments e_stop {FS}. Arguments e_fault {FS}.
+Arguments e_units {ST FS}. Arguments e_out {ST FS}. Arguments e_framer {ST FS}. Arguments e_stop {ST FS}. Arguments e_fault {ST FS}.
 
-(* [eof_on_empty]: the threaded handler takes recv() == b'' as end of stream and leaves its loop;
-   the asyncio / Twisted callbacks have no such test.  An exception escaping the framer ends the
-   threaded handler's loop (its catch-all clears `running`). *)
-Fixpoint run_reads (sk : skel) (cfg : scfg) (eof_on_empty : bool) (st : tstate) (l : units slavectx)
-                   (chunks : list bytes) : e2e_result tstate :=
+(* The two handler loops, generic in the server state [ST] (hosted unit ids [keys], callback on a
+   delivery list [hall]) and in the framing ([recv]). *)
+Section Loops.
+Context {ST FS : Type}.
+Variable keys : ST -> list Z.
+Variable hall : ST -> list delivery -> ST * bytes * option pyexn.
+Variable recv : FrBaseA.cfg -> FS -> bytes -> FS * list delivery * outc.
+Variable sk : skel.
+Variable cfg : scfg.
+
+(* stream handlers (TCP).  [eof_on_empty]: the threaded handler takes recv() == b'' as end of stream
+   and leaves its loop; the asyncio / Twisted callbacks have no such test.  An exception escaping the
+   framer ends the threaded handler's loop (its catch-all clears `running`). *)
+Fixpoint run_reads_g (eof_on_empty : bool) (st : FS) (l : ST) (chunks : list bytes) : e2e_result ST FS :=
   match chunks with
   | [] => {| e_units := l; e_out := []; e_framer := st; e_stop := None; e_fault := None |}
   | c :: cs =>
       if eof_on_empty && (match c with [] => true | _ => false end)
       then {| e_units := l; e_out := []; e_framer := st; e_stop := None; e_fault := None |}
       else
-        let '(st1, ds, o) := t_recv base tcp e2e_dec (framer_cfg sk cfg l) st c in
-        let '(l1, b1, flt) := handle_all packet_of sk cfg l ds in
+        let '(st1, ds, o) := recv (unit_cfg sk cfg (keys l)) st c in
+        let '(l1, b1, flt) := hall l ds in
         match flt, o with
         | Some e, _ => {| e_units := l1; e_out := b1; e_framer := st1; e_stop := None; e_fault := Some e |}
         | None, Done =>
-            let r := run_reads sk cfg eof_on_empty st1 l1 cs in
+            let r := run_reads_g eof_on_empty st1 l1 cs in
             {| e_units := e_units r; e_out := b1 ++ e_out r; e_framer := e_framer r;
                e_stop := e_stop r; e_fault := e_fault r |}
         | None, FrBaseA.Exc e => {| e_units := l1; e_out := b1; e_framer := st1; e_stop := Some e; e_fault := None |}
@@ -229,8 +242,33 @@ Fixpoint run_reads (sk : skel) (cfg : scfg) (eof_on_empty : bool) (st : tstate) 
         end
   end.
 
+(* the serial handler (ModbusSingleRequestHandler.handle): `if data:` skips an empty read; an exception
+   escaping the framer has reset the frame ([recv] includes the handler's resetFrame) and the loop goes on *)
+Fixpoint run_serial_g (st : FS) (l : ST) (chunks : list bytes) : e2e_result ST FS :=
+  match chunks with
+  | [] => {| e_units := l; e_out := []; e_framer := st; e_stop := None; e_fault := None |}
+  | [] :: cs => run_serial_g st l cs
+  | c :: cs =>
+      let '(st1, ds, o) := recv (unit_cfg sk cfg (keys l)) st c in
+      let '(l1, b1, flt) := hall l ds in
+      match flt, o with
+      | Some e, _ => {| e_units := l1; e_out := b1; e_framer := st1; e_stop := None; e_fault := Some e |}
+      | None, OutOfFuel => {| e_units := l1; e_out := b1; e_framer := st1; e_stop := None; e_fault := Some OtherExc |}
+      | None, _ =>
+          let r := run_serial_g st1 l1 cs in
+          {| e_units := e_units r; e_out := b1 ++ e_out r; e_framer := e_framer r;
+             e_stop := match o with FrBaseA.Exc e => Some e | _ => e_stop r end;   (* the first exception the ladder caught *)
+             e_fault := e_fault r |}
+      end
+  end.
+End Loops.
+
+Definition run_reads (sk : skel) (cfg : scfg) (eof_on_empty : bool) (st : tstate) (l : units slavectx)
+                     (chunks : list bytes) : e2e_result (units slavectx) tstate :=
+  run_reads_g (u_keys slavectx) (handle_all packet_of sk cfg) (t_recv base tcp e2e_dec) sk cfg eof_on_empty st l chunks.
+
 (* the Modbus/TCP server on one connection: front-end skeleton, configuration, hosted datastores,
    the reads -> final datastores and the bytes written *)
 Definition tcp_server_run (sk : skel) (cfg : scfg) (eof_on_empty : bool) (l : units slavectx) (chunks : list bytes)
-  : e2e_result tstate :=
+  : e2e_result (units slavectx) tstate :=
   run_reads sk cfg eof_on_empty (t_init tcp) l chunks.
